@@ -13,7 +13,7 @@ run() { # name file sed-expr pkg harnessfiles runregex extra-params
   sed -i "$expr" $WT/$file
   if (cd $WT && git diff --quiet); then echo "$name: sed did not change anything"; git -C /repo worktree remove --force $WT; return; fi
   local t=$( (cd $WT && GOFLAGS=-mod=mod GOPROXY=off go test -vet=off -count=1 ./consensus ./types ./gateway 2>&1 | grep -c "^FAIL\|^--- FAIL") )
-  local out=$(timeout 1500 bin/symgo -repo $WT -pkg $pkg -harness $hf -run "$rx" -p $P$extra -timeout 1500 -j 16 -maxpaths 200000 -out /tmp/mut_$name.json 2>&1 | grep -E "VIOLATION|INCOMPLETE| ok " | head -3 | cut -c1-160 | tr '\n' ';')
+  local out=$(timeout 1500 bin/symgo -repo $WT -pkg $pkg -harness $hf -run "$rx" -p $P$extra -timeout 1500 -j 6 -maxpaths 200000 -out /tmp/mut_$name.json 2>&1 | grep -E "VIOLATION|INCOMPLETE| ok " | head -3 | cut -c1-160 | tr '\n' ';')
   local reach=$(python3 -c "
 import json,sys
 d=json.load(open('/tmp/mut_$name.json'))
